@@ -66,6 +66,10 @@ pub struct RdbEngine {
     /// Last save time
     last_save_time: Arc<RwLock<Option<SystemTime>>>,
     
+    /// Held for the whole of a save: SAVE, SHUTDOWN, a replica sync and the background
+    /// save thread all write the same temporary file
+    save_lock: Arc<Mutex<()>>,
+    
     /// Configuration
     config: RdbConfig,
 }
@@ -115,6 +119,7 @@ impl RdbEngine {
             file_path,
             bgsave_in_progress: Arc::new(Mutex::new(false)),
             last_save_time: Arc::new(RwLock::new(None)),
+            save_lock: Arc::new(Mutex::new(())),
             config,
         }
     }
@@ -139,7 +144,9 @@ impl RdbEngine {
     /// Perform blocking save
     pub fn save(&self, storage: &Arc<StorageEngine>) -> Result<()> {
         // Note: We don't check bgsave_in_progress here because save() can be called
-        // from within bgsave() thread. The caller is responsible for managing concurrency.
+        // from within bgsave() thread. One save at a time: a second one waits for the first
+        // instead of truncating the temporary file under it.
+        let _one_save_at_a_time = self.save_lock.lock().unwrap_or_else(|e| e.into_inner());
         
         // Create temporary file
         let temp_path = self.file_path.with_extension("tmp");
@@ -471,6 +478,7 @@ impl Clone for RdbEngine {
             file_path: self.file_path.clone(),
             bgsave_in_progress: Arc::clone(&self.bgsave_in_progress),
             last_save_time: Arc::clone(&self.last_save_time),
+            save_lock: Arc::clone(&self.save_lock),
             config: self.config.clone(),
         }
     }
